@@ -10,7 +10,7 @@ PROP_ID = 'C06'
 RULE = ("(a) exhaustive: every key of the shipped stylesheet table × syntaxes css/scss/sass/less/sss/stylus × scopes none/@@global/@@section/@@property; "
         "(b) exhaustive: every dash-free keyword (top-level word or function name of an alternative, outside quoted strings, fields and function arguments) of "
         "every property snippet typed as `key:kw` and `key-kw` in lower/UPPER/Mixed case; (c) Hypothesis: user tables with 1–5 entries that override shipped keys "
-        "or add new all-letter keys (lower case and camelCase), property and raw bodies. Oracle derived from the *table text*, not from the resolver: `prop[:alt|alt…]` ⇒ "
+        "or add new all-letter keys (lower case and camelCase), each also expanded with a cache that the shipped table has filled, property and raw bodies. Oracle derived from the *table text*, not from the resolver: `prop[:alt|alt…]` ⇒ "
         "`prop<between><first alternative with fields reduced><after>` (compared with blanks removed), a tabstop marker present iff there is no value, several "
         "alternatives or explicit fields; raw body ⇒ the body with fields reduced, exactly; `key:kw` ⇒ value is kw or starts with `kw(`; @@section hides property "
         "lines and keeps raw bodies, @@property dually; a user entry wins under its key. Non-trivial: every case except raw snippets without fields; each case is "
@@ -108,8 +108,21 @@ def check_key(case, rec):
             cfg2 = dict(cfg)
             cfg2['options'] = {'output.field': MARK}
             marked = expand(key, cfg2)
+            if user:
+                # the user's table also wins when the call carries a cache that the shipped table (same syntax, no user entries) has filled
+                cache = {}
+                base = {'type': 'stylesheet', 'syntax': syntax, 'cache': cache}
+                if scope:
+                    base['context'] = {'name': scope}
+                expand(key if key in TABLE else 'm', base)
+                cached = expand(key, dict(cfg, cache=cache))
+            else:
+                cached = got
     except Exception as e:
         rec.fail(core.exc_bucket(e), 'key %r (%s, scope %s): %s: %s' % (key, syntax, scope, type(e).__name__, e))
+        return
+    if cached != got:
+        rec.fail('own-key-not-selected:shared-cache', 'key %r (%s) user table %r: with a cache filled by the shipped table %r, without cache %r' % (key, syntax, user, cached, got))
         return
     hidden = (scope == '@@section' and kind == 'prop') or (scope == '@@property' and kind == 'raw')
     if hidden:
